@@ -948,6 +948,13 @@ def c10(ctx):
                       "request, its timestamp (so the back-off delays and the prompt return at the deadline are exact), the cache write and the return")
     extra = store_special(ctx, "TestStoreSpecial")
     cov["special_cases"] = extra
+    # cache contents that are malformed by construction: the start must behave exactly as with no cache (every declared secret fetched)
+    results, wd, _ = ctx.godrive("store", "^TestCacheMalformed$", env={"VERIF_TRACES": 1500 if ctx.thorough else 200}, name="malformed")
+    rm = ctx.take(results, "store-malformed")
+    st = validate_branching(ctx, "StoreTrace", "StoreTrace.cfg", os.path.join(wd, "trace.ndjson"), 8, "store/malformed-cache",
+                            {"dict.ndjson": os.path.join(wd, "dict.ndjson")}, describe=describe_store_event)
+    cov["malformed_cache_inputs_validated"] = st["accepted"]
+    cov["traces_validated_against_impl"] += st["accepted"]
     return "model_checking", cov, ["time is virtual (testing/synctest); the scripted StoreClient honours contexts like the HTTP client does"]
 
 
@@ -1035,8 +1042,8 @@ def c15(ctx):
         ctx.tlc_must_pass(r, "Updater: WakeNotLost, ReturnFresh, NoSpuriousBuild, CloseOnce, AllClosed, FailKeeps over all interleavings")
     tot = {"accepted": 0, "events": 0, "histories": 0, "states": 0}
     samples, counters = [], {}
-    for conc in (0, 1):
-        n = (1500 if th else 150) if conc == 0 else (2500 if th else 250)
+    for conc in (0, 1, 2):
+        n = {0: (1500 if th else 150), 1: (2500 if th else 250), 2: (1500 if th else 200)}[conc]
         results, wd, code = ctx.godrive("updater", "^TestUpdaterHistories$", env={"VERIF_CONC": conc, "VERIF_TRACES": n},
                                         name="upd-%d" % conc, race=bool(conc), allow_fail=True, timeout=1700)
         blocks, real = race_blocks(os.path.join(wd, "driver.out"))
@@ -1054,7 +1061,7 @@ def c15(ctx):
         for k, v in r["counters"].items():
             counters[k] = counters.get(k, 0) + v
         st = validate_branching(ctx, "UpdaterTrace", "UpdaterTrace.cfg", os.path.join(wd, "trace.ndjson"), 16 if th else 8,
-                                "updater/%s" % ("concurrent" if conc else "sequential"), {"dict.ndjson": os.path.join(wd, "dict.ndjson")},
+                                "updater/%s" % ({0: "sequential", 1: "concurrent", 2: "slow-builder"}[conc]), {"dict.ndjson": os.path.join(wd, "dict.ndjson")},
                                 describe=describe_upd_event)
         for k in tot:
             tot[k] += st[k]
@@ -1066,8 +1073,9 @@ def c15(ctx):
                           "code's critical sections and lets installs happen between any two of them; TLC checks WakeNotLost, ReturnFresh, "
                           "NoSpuriousBuild, CloseOnce, AllClosed and FailKeeps over all interleavings of 2 updaters, 1-2 concurrent Get callers, 1-2 names, "
                           "install bursts and builder failures. Real updaters on a real Store are driven sequentially (bursts of 1-3 installs between "
-                          "Gets, builder failures, several updaters, two names) and concurrently (installer, 2-3 Get goroutines, an updater created "
-                          "mid-flight, failure toggles; race detector on); every builder call, Close and returned value is logged and TLC searches "
+                          "Gets, builder failures, several updaters, two names), concurrently (installer, 2-3 Get goroutines, an updater created "
+                          "mid-flight, failure toggles; race detector on) and with a builder held open by the driver while installs and a second Get "
+                          "caller arrive (an updater created during an update; a Get overtaken by installs and by another caller); every builder call, Close and returned value is logged and TLC searches "
                           "for the placement of the unlogged steps that explains them"}
     return "model_checking", cov, ["an install is a successful poll that found a new version; versions stand for bytes (64-byte recognisable values, "
                                    "the builder checks it was given a whole value of the right secret)",
